@@ -70,4 +70,38 @@ theorem unroll_optional_nonNull (t : GType) : ∀ opt, (unroll (.nonNull t) opt)
   | list t _ => intro _; rfl
   | nonNull t ih => intro opt; simpa [unroll] using ih false
 
+/-! ### member lookup in the class `parse_object_like` builds -/
+
+theorem lookup_cons_pos (m : Member) (ms : List Member) (n : List Char) (h : m.name = n) :
+    lookupMember (m :: ms) n = some m := by
+  rw [lookupMember, if_pos h]
+
+theorem lookup_cons_neg (m : Member) (ms : List Member) (n : List Char) (h : m.name ≠ n) :
+    lookupMember (m :: ms) n = lookupMember ms n := by
+  rw [lookupMember, if_neg h]
+
+theorem lookup_own_field (fo : Bool) (fs : List (List Char × GType)) (f : List Char) (t : GType)
+    (hmem : (f, t) ∈ fs) (hnd : (fs.map (·.1)).Nodup) (tail : List Member) :
+    lookupMember (fs.map (fun x => Member.field x.1 (parseField fo x.2)) ++ tail) f
+      = some (.field f (parseField fo t)) := by
+  induction fs with
+  | nil => cases hmem
+  | cons x xs ih =>
+    obtain ⟨a, b⟩ := x
+    have hnd' : a ∉ xs.map (·.1) ∧ (xs.map (·.1)).Nodup := by
+      simpa only [List.map_cons, List.nodup_cons] using hnd
+    rw [List.map_cons, List.cons_append]
+    by_cases hf : a = f
+    · subst hf
+      have hb : t = b := by
+        rcases List.mem_cons.mp hmem with h | h
+        · exact congrArg Prod.snd h
+        · exact absurd (List.mem_map_of_mem (f := (·.1)) h) hnd'.1
+      subst hb
+      exact lookup_cons_pos _ _ _ rfl
+    · rw [lookup_cons_neg (Member.field a (parseField fo b)) _ f hf]
+      rcases List.mem_cons.mp hmem with h | h
+      · exact absurd (congrArg Prod.fst h).symm hf
+      · exact ih h hnd'.2
+
 end Dcg.Proofs.Graphql
